@@ -355,6 +355,29 @@ theorem parse_compact (j : Json) (h : numsOk j = true) : parse (compact j) = som
   rw [List.append_nil] at this
   rw [this]
 
+mutual
+theorem depth_eraseBits : ∀ j : Json, depth (eraseBits j) = depth j
+  | .null => rfl
+  | .bool _ => rfl
+  | .num _ _ => rfl
+  | .str _ => rfl
+  | .arr xs => by simp only [eraseBits, depth, depthList_eraseBits xs]
+  | .obj kvs => by simp only [eraseBits, depth, depthKvs_eraseBits kvs]
+theorem depthList_eraseBits : ∀ xs : List Json, depthList (eraseBitsList xs) = depthList xs
+  | [] => rfl
+  | x :: xs => by simp only [eraseBitsList, depthList, depth_eraseBits x, depthList_eraseBits xs]
+theorem depthKvs_eraseBits : ∀ kvs : List (String × Json), depthKvs (eraseBitsKvs kvs) = depthKvs kvs
+  | [] => rfl
+  | (k, v) :: r => by simp only [eraseBitsKvs, depthKvs, depth_eraseBits v, depthKvs_eraseBits r]
+end
+
+/-- the record of a response reads back with `serde_json`'s limit exactly when it is nested less than 128 deep -/
+theorem parseSerde_compact (j : Json) (h : numsOk j = true) :
+    parseSerde (compact j) = if depth j ≤ serdeDepthLimit then some (eraseBits j) else none := by
+  unfold parseSerde
+  rw [parse_compact j h]
+  simp only [depth_eraseBits]
+
 /-! ### CSV: a reader gets back the fields that were written -/
 
 theorem not_special_of_not_needsQuotes (t : List Char) (h : needsQuotes t = false) :
